@@ -4,6 +4,7 @@ import (
 	"fmt"
 	"strings"
 
+	"github.com/grindlemire/go-lucene/internal/verifhook"
 	"github.com/grindlemire/go-lucene/pkg/lucene/expr"
 )
 
@@ -42,6 +43,7 @@ func (b Base) RenderParam(e *expr.Expression) (s string, params []any, err error
 	if e == nil {
 		return "", params, nil
 	}
+	verifhook.Render(int(e.Op), true)
 
 	left, lparams, err := b.serializeParams(e.Left)
 	if err != nil {
@@ -109,6 +111,7 @@ func (b Base) Render(e *expr.Expression) (s string, err error) {
 	if e == nil {
 		return "", nil
 	}
+	verifhook.Render(int(e.Op), false)
 
 	left, err := b.serialize(e.Left)
 	if err != nil {
